@@ -761,6 +761,22 @@ func ruleENC(c *Ctx) {
 			}
 		}
 		if ok {
+			// and nothing else decides it: a second condition on the way to Flush ("only when the block size is
+			// positive", "only every other time") makes a block that has reached its size wait for the next record
+			for _, f := range factsAt(fc.Block()) {
+				if f.Target != T && f.If != nil {
+					extra := true
+					// the pieces of one short-circuit size test (Len >= size written as two conditions of the same values) do not count
+					if cmp, isCmp := asCmp(f.Cond, f.Truth); isCmp && lenCall != nil && (cmp.X == ssa.Value(lenCall) || cmp.Y == ssa.Value(lenCall)) && (loadOfEncoderField(cmp.X, "approxBlockSize") || loadOfEncoderField(cmp.Y, "approxBlockSize")) {
+						extra = false
+					}
+					if extra {
+						ok = false
+					}
+				}
+			}
+		}
+		if ok {
 			// on that edge Flush is always reached before returning
 			reach := reachableFrom(T, map[*ssa.BasicBlock]bool{fc.Block(): true})
 			for b := range reach {
